@@ -357,6 +357,10 @@ class Interp:
             return Fn("lib", name="identity")
         if fq == "re.compile":
             return Fn("lib", name="re.compile")
+        if root == "re" and last.isupper():
+            import re as _re
+            if isinstance(getattr(_re, last, None), _re.RegexFlag):
+                return Const(getattr(_re, last))
         if fq == "collections.OrderedDict":
             return Fn("lib", name="builtins.dict")
         if fq.startswith("numpy.") or fq.startswith("math.") or fq.startswith("datetime.") or fq.startswith("dateutil.") or fq.startswith("posixpath."):
@@ -400,8 +404,22 @@ class Interp:
                 parts.append(str(v.value))
             else:
                 x = self.eval(v.value, sc)
-                if isinstance(x, Const) and v.format_spec is None and v.conversion == -1:
-                    parts.append(str(x.v))
+                spec = None
+                if v.format_spec is not None:
+                    sp = self.eval(v.format_spec, sc)
+                    spec = sp.v if isinstance(sp, Const) and isinstance(sp.v, str) else False
+                if isinstance(x, Const) and spec is not False:
+                    val = x.v
+                    if v.conversion == ord("r"):
+                        val = repr(val)
+                    elif v.conversion == ord("s"):
+                        val = str(val)
+                    elif v.conversion == ord("a"):
+                        val = ascii(val)
+                    try:
+                        parts.append(format(val, spec or ""))
+                    except (ValueError, TypeError) as ex:
+                        raise _Raise.of(ex, "format")
                 else:
                     allconst = False
                     parts.append("{}")
@@ -1157,7 +1175,10 @@ class Interp:
         if isinstance(st, ast.Pass):
             return
         if isinstance(st, ast.Raise):
-            raise _Raise(short(st, 50), self.exception_classes(st.exc, sc))
+            classes = self.exception_classes(st.exc, sc)
+            ex = _Raise(short(st, 50), classes)
+            ex.value = self.exception_value(st.exc, sc, classes)
+            raise ex
         if isinstance(st, (ast.Import, ast.ImportFrom)):
             return
         if isinstance(st, ast.Try):
@@ -1171,7 +1192,8 @@ class Interp:
                 if h is None:
                     raise
                 if h.name:
-                    sc.vars[h.name] = Obj("Exception", OrderedDict(args=TupS([Const(ex.what)]), classes=Const(ex.classes)))
+                    val = getattr(ex, "value", None)
+                    sc.vars[h.name] = val if isinstance(val, Obj) else Obj("Exception", OrderedDict(args=TupS([Const(ex.what)]), classes=Const(ex.classes)))
                 self.exec_block(h.body, sc, yields)
             else:
                 self.exec_block(st.orelse, sc, yields)
@@ -1180,6 +1202,25 @@ class Interp:
                     self.exec_block(st.finalbody, sc, yields)
             return
         raise ShapeError(f"statement outside the modelled fragment: {short(st, 60)}")
+
+    def exception_value(self, exc, sc, classes):
+        """the exception object a raise statement creates, as far as it can be evaluated (args of builtin exception classes,
+        objects built by stubs, re-raised handler variables)"""
+        if exc is None:
+            return None
+        try:
+            if isinstance(exc, ast.Call):
+                f = exc.func
+                name = f.id if isinstance(f, ast.Name) else f.attr if isinstance(f, ast.Attribute) else None
+                bound = sc.lookup(name) if isinstance(f, ast.Name) else None
+                if isinstance(bound, Fn) and bound.kind == "py":
+                    return self.eval(exc, sc)
+                args = [self.eval(a, sc) for a in exc.args if not isinstance(a, ast.Starred)]
+                return Obj("Exception", OrderedDict(args=TupS(args), classes=Const(tuple(classes) if classes else None)))
+            v = self.eval(exc, sc)
+            return v if isinstance(v, Obj) else None
+        except (ShapeError, _Raise):
+            return None
 
     def exception_classes(self, exc, sc):
         """names of the class an expression raises, with its bases (builtins by their MRO, repo classes by their base list)"""
